@@ -1029,6 +1029,7 @@ theorem applyOp_untouched {env : Env} {w : World} {op : Op} {c : Nat} (h : op.to
       obtain ⟨cs, st⟩ := s
       simp only
       cases upgradeClient env st cs1 bt <;> simp [World.set, Ne.symm h]
+  | restart => rfl
 
 theorem applyOp_congr {env : Env} {w w' : World} {op : Op} {c : Nat} (hw : w c = w' c) (h : op.touches c = true) :
     (applyOp env w op).1 c = (applyOp env w' op).1 c ∧ (applyOp env w op).2 = (applyOp env w' op).2 := by
@@ -1075,6 +1076,7 @@ theorem applyOp_congr {env : Env} {w w' : World} {op : Op} {c : Nat} (hw : w c =
       | ok s => simp [World.set]
       | err e => exact ⟨hw, rfl⟩
       | panic p => exact ⟨hw, rfl⟩
+  | restart => simp [Op.touches] at h
 
 /-- **frame**: the committed state of client `c` after a history is the state after the sub-history of the
 operations that address `c` — operations on other clients and discarded executions (`dry`, on any client,
@@ -1111,6 +1113,60 @@ theorem accept_independent {env : Env} (c : Nat) (ops : List Op) (w : World) (bt
     cases runOps env w (List.filter (Op.touches c) ops) c with
     | none => rfl
     | some s => rfl
+
+/-- **restart_identity**: export + re-import of the hosting chain is the identity on every client: client state,
+consensus states, recent signers and the pending validator set are what they were. -/
+theorem restart_identity {env : Env} (w : World) : applyOp env w .restart = (w, .ok ()) := rfl
+
+def Op.isRestart : Op → Bool
+  | .restart => true
+  | _ => false
+
+/-- restarts are invisible: the state of every client after a history is its state after the same history with the
+restarts removed (wherever they occur: between an epoch header and its switch, right after a switch or an upgrade,
+with recent-signer records present). -/
+theorem restarts_invisible {env : Env} (c : Nat) (ops : List Op) (w : World) :
+    runOps env w ops c = runOps env w (ops.filter (fun o => !o.isRestart)) c := by
+  rw [frame c ops (w := w) (w' := w) rfl, frame c (ops.filter (fun o => !o.isRestart)) (w := w) (w' := w) rfl]
+  congr 1
+  rw [List.filter_filter]
+  apply List.filter_congr
+  intro o _
+  cases o <;> simp [Op.touches, Op.isRestart]
+
+/-- the rule theorems over arbitrary histories (creates, updates, upgrades, discarded executions, other clients,
+restarts): whatever history led to the committed state of client `c`, a header it then accepts satisfies
+`accept_sound`, the set-switch rule and `accepted_root_stored`. -/
+theorem rules_over_histories {env : Env} (ops : List Op) (w : World) (c bt : Nat) (h : Header)
+    {cs : ClientState} {st : Store}
+    (hc : runOps env w ops c = some (cs, st))
+    (hok : (applyOp env (runOps env w ops) (.update c bt h)).2 = .ok ())
+    (hu64 : h.number < two64) (hnum : cs.head.number + 1 < two64) (hgas : cs.head.gasLimit < two63) :
+    ∃ cs' st', runOps env w (ops ++ [.update c bt h]) c = some (cs', st')
+      ∧ updateClient Fix.fixed env cs st bt h = .ok (cs', st')
+      -- accept_sound
+      ∧ h.number = cs.head.number + 1 ∧ toHash h.parentHash = env.hash cs.head ∧ StructurallyValid cs h
+      ∧ (∃ signer, env.recover cs.chainId h = some signer ∧ signer = toAddr h.coinbase ∧ signer ∈ valSet cs.validators
+          ∧ (∀ e ∈ st.recents, h.number ≤ e.num + (valSet cs.validators).length / 2 → e.addr ≠ signer)
+          ∧ beNat h.difficulty = (if inturn cs.validators cs.head.number signer then 2 else 1))
+      -- the set changes only at the offset, to the pending list
+      ∧ (cs'.validators ≠ cs.validators →
+          h.number % cs.epoch = cs.validators.length / 2 ∧ pendingAfter st cs h = some cs'.validators)
+      -- accepted_root_stored
+      ∧ lookupCons st'.cons h.rev h.number = some ⟨h.rev, h.number, h.time, h.root⟩ := by
+  simp only [applyOp, hc] at hok
+  cases hu : updateClient Fix.fixed env cs st bt h with
+  | err e => simp [hu] at hok
+  | panic p => simp [hu] at hok
+  | ok s =>
+    obtain ⟨cs', st'⟩ := s
+    obtain ⟨h1, h2, h3, h4⟩ := accept_sound hu hu64 hnum hgas
+    refine ⟨cs', st', ?_, rfl, h1, h2, h3, h4, (valset_changes_only_at_offset hu).1, (accepted_root_stored hu).1⟩
+    unfold runOps
+    rw [List.foldl_append]
+    simp only [List.foldl_cons, List.foldl_nil]
+    show (applyOp env (runOps env w ops) (.update c bt h)).1 c = some (cs', st')
+    simp only [applyOp, hc, hu, World.set, ↓reduceIte]
 
 /-- a discarded execution changes nothing, whatever it verified -/
 theorem dry_changes_nothing {env : Env} (w : World) (i bt : Nat) (h : Header) :
